@@ -402,6 +402,8 @@ fn build_with(rng: &mut Rng, kind: Kind, opts: &Opts) -> Built {
     // `serialize` writes the label table sorted by address; a conforming image may list the rows in
     // any order (rows of one address need not be adjacent): by name, reversed, random
     permute_label_rows(&mut img, rng.below(5), rng);
+    // ... and may hold the pool strings in any order (names before label strings, reversed, random)
+    relayout_pool(&mut img, rng.below(6), rng);
     // the data block as serialized: the c-string pool (if any) has been appended to the data
     let data_len = u32::from_le_bytes([img[4], img[5], img[6], img[7]]) as usize;
     assert_eq!(data_len, final_len, "c-string pool size mispredicted");
@@ -451,9 +453,159 @@ fn build_tiny(rng: &mut Rng, len: usize, variant: usize) -> Option<Built> {
     Some(Built { img, data_len: len, strings, labels, files, padded: false, count_addr, info_addr })
 }
 
+/// Re-lays out the text pool of a serialized image in place: `serialize` stores the label names
+/// first and the cell strings behind them; a conforming image may hold the pool strings in any
+/// order. Cell words (offset from the start of the data region) and label rows (offset from the
+/// start of the pool) are patched accordingly.
+/// mode 0..=2: unchanged; 3: strings referenced by cells first, label-only strings behind them (in
+/// random order); 4: reversed; 5: random.  Returns false (image untouched) if the pool is not a
+/// plain sequence of referenced NUL-terminated strings.
+pub fn relayout_pool(img: &mut Vec<u8>, mode: u64, rng: &mut Rng) -> bool {
+    if mode < 3 {
+        return false;
+    }
+    let w = |img: &Vec<u8>, p: usize| u32::from_le_bytes([img[p], img[p + 1], img[p + 2], img[p + 3]]) as usize;
+    let (ds, np, nl) = (w(img, 4), w(img, 8), w(img, 12));
+    let ptrs = 0x20 + ds;
+    let lo = ptrs + 4 * np;
+    let text = lo + 8 * nl; // file offset of the pool
+    let text_start = ds + 4 * np + 8 * nl; // the same, counted from the end of the file header
+    let pool: Vec<u8> = img[text..].to_vec();
+    // references: (is_cell, location of the word to patch, pool offset)
+    let mut refs: Vec<(bool, usize, usize)> = Vec::new();
+    for i in 0..np {
+        let cell = w(img, ptrs + 4 * i);
+        let v = w(img, 0x20 + cell);
+        if v > ds {
+            if v < text_start {
+                return false;
+            }
+            refs.push((true, 0x20 + cell, v - text_start));
+        }
+    }
+    for i in 0..nl {
+        refs.push((false, lo + 8 * i + 4, w(img, lo + 8 * i + 4)));
+    }
+    let mut starts: Vec<usize> = refs.iter().map(|r| r.2).collect();
+    starts.sort();
+    starts.dedup();
+    // the pool must be exactly these strings, back to back
+    let mut strings: Vec<(usize, Vec<u8>, bool)> = Vec::new(); // (old offset, bytes incl. NUL, referenced by a cell)
+    let mut at = 0usize;
+    for st in &starts {
+        if *st != at {
+            return false;
+        }
+        let end = match pool[at..].iter().position(|b| *b == 0) {
+            Some(e) => at + e + 1,
+            None => return false,
+        };
+        let by_cell = refs.iter().any(|r| r.0 && r.2 == *st);
+        strings.push((*st, pool[at..end].to_vec(), by_cell));
+        at = end;
+    }
+    if at != pool.len() {
+        return false;
+    }
+    match mode {
+        3 => {
+            rng.shuffle(&mut strings);
+            strings.sort_by_key(|s| !s.2); // stable: cell strings first
+        }
+        4 => strings.reverse(),
+        _ => rng.shuffle(&mut strings),
+    }
+    let mut new_pool: Vec<u8> = Vec::new();
+    let mut moved: Vec<(usize, usize)> = Vec::new(); // old offset -> new offset
+    for (old, bytes, _) in &strings {
+        moved.push((*old, new_pool.len()));
+        new_pool.extend(bytes);
+    }
+    for (is_cell, loc, old) in refs {
+        let new = moved.iter().find(|m| m.0 == old).unwrap().1;
+        let v = if is_cell { text_start + new } else { new } as u32;
+        img[loc..loc + 4].copy_from_slice(&v.to_le_bytes());
+    }
+    img.truncate(text);
+    img.extend(new_pool);
+    true
+}
+
+/// A small arc with the simplest data layout (optional zero header, count cell, table, bodies)
+/// whose pool holds the `n` file names — `total` encoded bytes altogether — IN FRONT of the two
+/// label strings, so that the label offsets (counted from the pool start) run through the range of
+/// the values stored in the name cells (counted from the start of the data region) as `total` is
+/// swept.  A reader that confuses the two bases (e.g. one cache keyed by the stored number) breaks
+/// exactly when they coincide.
+fn build_pool(rng: &mut Rng, n: usize, total: usize, padded: bool) -> Built {
+    // split `total` bytes over n distinct names
+    let mut names: Vec<String> = Vec::new();
+    let mut left = total;
+    for i in 0..n {
+        let l = if i + 1 == n { left } else { rng.below(left as u64 + 1) as usize };
+        left -= l;
+        let mut nm = super::pack::exact_len_name(rng, l);
+        let mut tries = 0;
+        while (names.contains(&nm) || nm == "Count" || nm == "Info") && tries < 50 {
+            nm = super::pack::exact_len_name(rng, l);
+            tries += 1;
+        }
+        names.push(nm);
+    }
+    if n >= 2 {
+        // at most one empty name; equal names are possible only for tiny lengths: make them distinct
+        for i in 0..n {
+            for j in 0..i {
+                if names[i] == names[j] {
+                    names[i].push('~');
+                }
+            }
+        }
+    }
+    let base = if padded { 0x60 } else { 0 };
+    let mut data = vec![0u8; base];
+    let count_addr = data.len();
+    data.extend((n as u32).to_le_bytes());
+    // (n >= 1: in the unpadded layout the count word is the non-zero first word)
+    let info_addr = data.len();
+    data.extend(vec![0u8; 16 * n]);
+    let mut files: Vec<(String, Vec<u8>)> = Vec::new();
+    let mut offs: Vec<usize> = Vec::new();
+    for nm in &names {
+        let bl = rng.range(0, 5) as usize;
+        let body = rng.bytes(bl);
+        offs.push(data.len() - base);
+        data.extend(&body);
+        files.push((nm.clone(), body));
+    }
+    let data_len = data.len();
+    let mut a = BinArchive::new(Endian::Little);
+    a.allocate_at_end(data_len);
+    a.write_bytes(0, &data).unwrap();
+    let mut strings = Vec::new();
+    for i in 0..n {
+        let r = info_addr + 16 * i;
+        a.write_string(r, Some(&files[i].0)).unwrap();
+        strings.push((r, files[i].0.clone()));
+        a.write_u32(r + 4, i as u32).unwrap();
+        a.write_u32(r + 8, files[i].1.len() as u32).unwrap();
+        a.write_u32(r + 12, offs[i] as u32).unwrap();
+    }
+    a.write_label(count_addr, "Count").unwrap();
+    a.write_label(info_addr, "Info").unwrap();
+    let labels = vec![(count_addr, "Count".to_string()), (info_addr, "Info".to_string())];
+    let mut img = a.serialize().unwrap();
+    let ok = relayout_pool(&mut img, 3, rng);
+    assert!(ok, "pool relayout refused a plain image");
+    if rng.chance(1, 2) {
+        permute_label_rows(&mut img, 3, rng);
+    }
+    Built { img, data_len, strings, labels, files, padded, count_addr, info_addr }
+}
+
 /// Reorders the 8-byte rows `(address, name offset)` of the label table in place.
 /// mode 0, 1: unchanged; 2: sorted by label name; 3: reversed; 4: random.
-fn permute_label_rows(img: &mut Vec<u8>, mode: u64, rng: &mut Rng) {
+pub fn permute_label_rows(img: &mut Vec<u8>, mode: u64, rng: &mut Rng) {
     let w = |img: &Vec<u8>, p: usize| u32::from_le_bytes([img[p], img[p + 1], img[p + 2], img[p + 3]]) as usize;
     let (ds, np, nl) = (w(img, 4), w(img, 8), w(img, 12));
     let lo = 0x20 + ds + 4 * np;
@@ -551,6 +703,19 @@ fn gen_inner(seed: u64, tier: &str) -> Vec<String> {
         for v in variants {
             let b = build_tiny(&mut rng, len, v).or_else(|| build_tiny(&mut rng, len, 0)).unwrap();
             out.push(fmt_case(&b, "ok"));
+        }
+    }
+    // names in front of the label strings, total name bytes swept in steps of 1: the label offsets
+    // (pool-relative) pass through every value stored in a name cell (data-relative), in both
+    // header layouts, 1-3 files
+    let top = if thorough { 330 } else { 235 };
+    for total in 0..=top {
+        for padded in [false, true] {
+            let ns: Vec<usize> = if thorough { vec![1, 2, 3] } else { vec![1 + (total + padded as usize) % 3] };
+            for k in ns {
+                let b = build_pool(&mut rng, k, total, padded);
+                out.push(fmt_case(&b, "ok"));
+            }
         }
     }
     // exact counts and lengths: record counts around the powers of two; every name length and
